@@ -131,6 +131,9 @@ class PeerConn:
                     self.log['frames'].append(info)
                     self.req, self.result = None, payload
                 elif rx.fin or rx.rst:
+                    if rx.fin and not rx.rst and len(self.buf) > 0:
+                        # the tool closed the connection having written only part of a packet
+                        self.log['frames'].append({'error': 'truncated packet at end of stream: %d bytes written, first bytes %s' % (len(self.buf), bytes(self.buf[:8]).hex())})
                     self.req, self.exc = None, PeerEOF()
                     self.log['eof_seen'] = True
                 else:
@@ -178,6 +181,8 @@ class PeerConn:
                     info['after_reply'] = True
                     self.log['frames'].append(info)
                 if rx.fin or rx.rst:
+                    if rx.fin and not rx.rst and len(self.buf) > 0:
+                        self.log['frames'].append({'error': 'truncated packet at end of stream: %d bytes written, first bytes %s' % (len(self.buf), bytes(self.buf[:8]).hex()), 'after_reply': True})
                     del self.buf[:]
                     self.req, self.result = None, None
                     self.log['eof_seen'] = True
